@@ -16,6 +16,12 @@ def gen(rng, tier):
     for p in text.PLACEHOLDERS:
         cases.append((b"a=" + p, "placeholder"))
         cases.append((b"a = " + p + b" & b=" + p, "placeholder"))
+    # exhaustive: every byte value in every lexer state (text, field, value, after a quote inside
+    # a value, placeholder), before and after each token kind
+    for b in range(256):
+        bb = bytes([b])
+        for tmpl in (b"%s", b"a%s", b"a%s=\"1\"", b"a=%s", b"a=\"x%s\"", b"a=\"x\"%s", b"a=\"x\"\"%s\"", b"a=$1%s", b"a=$%s", b"a=\"1\"%s", b"a=\"1\";c%s", b"a=\"1\";c,%sd", b"(%sa=\"1\")", b"a=\"1\"&%sb=\"2\""):
+            cases.append((tmpl % bb, "exhaustive-byte"))
     for _ in range(n):
         s, t, gb, toks = text.sentence(rng)
         k = rng.random()
@@ -90,7 +96,7 @@ def run(rep, scratch, tier, seed, replay=None):
     rep.coverage.update({
         "evaluations": len(cases), "distinct_nontrivial": len(distinct),
         "rule": "directed cases, placeholder edge cases ($, $0, $007, 2^31-1, 2^31, 2^32+1, 20 digits, signs), random derivations of the grammar (depth<=6, arity 2..4, hostile values, group-by lists) spelled with random white space, 1-3 token-level mutations of them (drop/duplicate/swap/insert/replace/truncate/append), single-byte insertions, raw byte strings. Compared: accept/reject and the tree; goroutine count polled back to baseline after each case. Non-trivial = distinct accepted trees.",
-        "kinds": kinds, "accepted": acc, "rejected": len(cases) - acc, "failures": len(bad),
+        "kinds": kinds, "exhaustive": True, "exhaustive_part": "all 256 byte values in 14 lexer contexts", "accepted": acc, "rejected": len(cases) - acc, "failures": len(bad),
         "samples": [core.show_bytes(cases[min(len(cases) - 1, len(text.DIRECTED) + 60)][0])],
     })
     rep.assumptions += ["goroutine stack exhaustion at ~10^6 nesting levels is outside the model (known finding, see DESIGN.md)",
